@@ -214,9 +214,25 @@ def r2_classifier_agreement(ctx):
             be = [x for x in b.calls_to(r"BatchEntryErr::<'.*>::new$") if b.dominates(c.bb, x.bb)]
             R.check(bool(be), "C02.R2", "invalid:entry-built", "an unclassifiable entry becomes a BatchEntryErr", "no BatchEntryErr is built after the id recovery", where(c))
             for x in be:
-                idl = tr.origins(b, x.args[0])
+                idl = list(tr.origins(b, x.args[0]))
+                # `from_str(..).map(|inv| inv.id).unwrap_or(Id::Null)`: look through the combinators
+                for _ in range(4):
+                    more = []
+                    for l in idl:
+                        if l.kind == "call" and re.search(r"(Option|Result)::<.*>::(map|map_or|map_or_else|unwrap_or|unwrap_or_else|unwrap_or_default|ok|and_then)$", l.detail.get("callee") or ""):
+                            for a_ in l.detail.get("args") or []:
+                                more += tr.origins(F.bodies[l.where], a_)
+                    new_ = [m for m in more if m not in idl]
+                    if not new_:
+                        break
+                    idl += new_
                 ok = any(l.kind == "call" and l.detail["bb"] == c.bb for l in idl) or any("id" in " ".join(l.chain) for l in idl)
                 okn = any(l.kind == "agg" and l.detail.get("variant") == "Null" for l in idl)
+                if not okn:
+                    # the fallback may be the default of an `unwrap_or(Id::Null)` the trace walked through
+                    for u in b.calls_to(r"(Option|Result)::<.*>::unwrap_or$"):
+                        if len(u.args) > 1 and any(l.kind == "agg" and l.detail.get("variant") == "Null" for l in tr.origins(b, u.args[1])):
+                            okn = True
                 R.check(ok and okn, "C02.R2", "invalid:id-recovered-or-null", "the invalid entry's id is the recovered id, else Id::Null", "the invalid entry's id is %s" % [flow.leaf_str(l) for l in idl], where(x))
                 el = tr.origins(b, x.args[1])
                 R.check(any(l.kind == "agg" and l.detail.get("variant") == "InvalidRequest" for l in el), "C02.R2", "invalid:-32600", "an invalid entry is answered InvalidRequest", "an invalid batch entry is answered with %s" % [flow.leaf_str(l) for l in el], where(x))
